@@ -1132,3 +1132,55 @@ func (e *Exec) WBLOnlySamples() map[string][]int64 {
 	}
 	return out
 }
+
+// IsMaybeOOO reports whether the model classified the accepted sample as (possibly) out-of-order.
+func (e *Exec) IsMaybeOOO(series string, t int64) bool { return e.maybeOOO[series][t] }
+
+func clone3(m map[string]map[int64]map[string]bool) map[string]map[int64]map[string]bool {
+	out := map[string]map[int64]map[string]bool{}
+	for k, a := range m {
+		out[k] = map[int64]map[string]bool{}
+		for t, b := range a {
+			out[k][t] = map[string]bool{}
+			for v := range b {
+				out[k][t][v] = true
+			}
+		}
+	}
+	return out
+}
+
+func clone2[V any](m map[string]map[int64]V) map[string]map[int64]V {
+	out := map[string]map[int64]V{}
+	for k, a := range m {
+		out[k] = map[int64]V{}
+		for t, v := range a {
+			out[k][t] = v
+		}
+	}
+	return out
+}
+
+// CloneModel returns a model-only executor for another directory holding a copy of this
+// executor's data: the model and all classification state are deep-copied, no DB is attached.
+func (e *Exec) CloneModel(dir string) *Exec {
+	x := newExec(dir, e.Cfg)
+	x.Model = e.Model.Clone()
+	x.Zombies = clone3(e.Zombies)
+	x.DeletedVals = clone3(e.DeletedVals)
+	x.undead = clone3(e.undead)
+	x.maybeOOO = clone2(e.maybeOOO)
+	x.Ghosts = clone2(e.Ghosts)
+	x.orphan = clone2(e.orphan)
+	for k, v := range e.deleted {
+		x.deleted[k] = append([][2]int64(nil), v...)
+	}
+	e.oooMu.Lock()
+	for k, v := range e.oooBlocks {
+		x.oooBlocks[k] = v
+	}
+	e.oooMu.Unlock()
+	x.Steps = append([]string(nil), e.Steps...)
+	x.Restarts = e.Restarts
+	return x
+}
